@@ -69,8 +69,9 @@ def build_xml(par, js, pv, feat):
             s += '      <camera name="ctm" mode="targetbodycom" target="%s" pos="-0.35 0.2 0.45"/>\n' % tgt
         if cons:
             # colliding sphere (margin so large that every contact stays active over the whole lattice)
-            s += ('      <geom name="gc%d" type="sphere" size="0.05" pos="0.02 -0.01 0.03" contype="1" conaffinity="1" '
-                  'margin="20" condim="%d" friction="0.8 0.02 0.003"/>\n' % (i, [1, 3, 6][(i + pv) % 3]))
+            # (body-dependent offset: bodies i and i+3 share the same frame, their spheres must not be concentric)
+            s += ('      <geom name="gc%d" type="sphere" size="0.05" pos="%g -0.01 0.03" contype="1" conaffinity="1" '
+                  'margin="20" condim="%d" friction="0.8 0.02 0.003"/>\n' % (i, 0.02 + 0.03 * i, [1, 3, 6][(i + pv) % 3]))
         extra[i] = s
     # joint attributes: a non-zero reference on scalar joints of odd bodies; limits / frictionloss with constraints
     jattr = []
@@ -159,7 +160,7 @@ class ModelView:
                      "body_sameframe", "body_simple", "jnt_type", "jnt_qposadr", "jnt_dofadr", "jnt_pos", "jnt_axis", "jnt_bodyid",
                      "qpos0", "dof_bodyid", "dof_jntid", "dof_parentid"):
             setattr(self, name, g(name))
-        for name in ("geom_bodyid", "geom_pos", "geom_quat", "geom_sameframe"):
+        for name in ("geom_bodyid", "geom_pos", "geom_quat", "geom_sameframe", "geom_type", "geom_size"):
             setattr(self, name, g(name) if m.ngeom else np.zeros((0,)))
         for name in ("site_bodyid", "site_pos", "site_quat", "site_sameframe"):
             setattr(self, name, g(name) if m.nsite else np.zeros((0,)))
